@@ -124,9 +124,10 @@ func driveTX(p *Plan, shard int, w *Writer, t *codec.Table) {
 		hs := loadHunks(p.Universe, it.Family)
 		fam := loadFamily(p.Universe, "deep")
 		id := 10000000 + last
+		chunkI, chunkN := chunkOf(p)
 		mk := func(seq []codec.Hunk) {
 			id++
-			if id%p.Shards != shard {
+			if id%p.Shards != shard || (chunkN > 1 && (id/p.Shards)%chunkN != chunkI) {
 				return
 			}
 			sort.SliceStable(seq, func(i, j int) bool { return !seq[i].Merge && seq[j].Merge })
